@@ -228,12 +228,25 @@ def unit_loose(U):
                 return it.call(F.Feature.__str__, [f1], {}), it.call(F.Feature.__str__, [f2], {}), f1, f2
 
             def replay(m, D=D, shape=shape, dname=dname):
-                items = [(A.KEYS[ai], ["v%d%d" % (ai, j) for j in range(n)]) for ai, n in enumerate(shape)]
-                attr = _native_enc(items, D)
-                cols = ["chr1", "src", "gene", "10", "20", "0.5", "+", "."]
-                f1 = F.feature_from_line("\t".join(cols + [attr]))
-                f2 = F.feature_from_line(" ".join(cols + [attr]), strict=False)
-                return {"inputs": {"dialect": dname, "attr": attr}, "observed": [str(f1), str(f2)], "violates": f1 != f2 or dict(f1.attributes) != dict(f2.attributes)}
+                # value contents tried: plain tokens, then (where the grammar of the dialect allows blanks inside a
+                # value) single, double and triple blanks inside the value
+                pats = ["v%d%d"]
+                if D["keyval separator"] != " ":
+                    pats += ["x y%d%d", "x  y%d%d", "a   b  c%d%d"]
+                last = None
+                for pat in pats:
+                    items = [(A.KEYS[ai], [pat % (ai, j) for j in range(n)]) for ai, n in enumerate(shape)]
+                    attr = _native_enc(items, D)
+                    cols = ["chr1", "src", "gene", "10", "20", "0.5", "+", "."]
+                    try:
+                        f1 = F.feature_from_line("\t".join(cols + [attr]))
+                        f2 = F.feature_from_line(" ".join(cols + [attr]), strict=False)
+                        last = {"inputs": {"dialect": dname, "attr": attr}, "observed": [str(f1), str(f2)], "violates": f1 != f2 or dict(f1.attributes) != dict(f2.attributes)}
+                    except Exception as ex:
+                        last = {"inputs": {"dialect": dname, "attr": attr}, "observed": "raised %r" % (ex,), "violates": True}
+                    if last["violates"]:
+                        return last
+                return last
             for p in U.explore(run, it):
                 ok = p.kind == "return" and _struct_eq(SStr.of(p.value[0]), SStr.of(p.value[1])) is True and p.value[2].dialect == p.value[3].dialect
                 U.prove("C07.loose[%s,%s]#p%d" % (dname, "x".join(map(str, shape)), p.index),
